@@ -152,6 +152,10 @@ type Sent struct {
 	// Decoy: query / formData only. Values sent under the declared name in another letter case: names of these
 	// locations are case-sensitive, so the values must never be bound.
 	Decoy []kit.BStr `json:"decoy,omitempty"`
+	// Cross: query / formData only. Values sent under the declared name in the *other* of the two locations (a
+	// formData parameter's name as a URL query key, a query parameter's name as a form field of the body, when the
+	// request has one): a parameter is looked up under the rules of its own location, so these never count.
+	Cross []kit.BStr `json:"cross,omitempty"`
 	File  *FileSent  `json:"file,omitempty"`
 }
 
